@@ -417,7 +417,7 @@ struct runner
       std::size_t total = 0;
       for (auto const &m : model)
         total += count_nodes(m);
-      unsigned op = static_cast<unsigned>(g.below(24));
+      unsigned op = static_cast<unsigned>(g.below(25));
       if (total > 45 && op < 8)
         op = 8 + op % 5; // keep forests small: bias towards removing operations
       char const *inner = pa.empty() ? "root" : "inner";
@@ -698,6 +698,44 @@ struct runner
           opname = std::string("move-assign-") + inner + "-" + (pb.empty() ? "root" : "inner");
         }
         break;
+      case 24:
+      {
+        // comparison must see the SHAPE, not only the values: rebuild the node's pre-order value sequence as a flat tree
+        // (all values direct children of the first) and as a chain, and compare with the node itself
+        vf::extend_case(" compare_reshaped(%s)", pstr(ra, pa).c_str());
+        std::vector<int> vals;
+        mpre(ma, vals);
+        T flat(vals[0]);
+        M mflat{vals[0], {}};
+        for (std::size_t i = 1; i < vals.size(); ++i)
+        {
+          flat.push_back(vals[i]);
+          mflat.ch.push_back(M{vals[i], {}});
+        }
+        T chain(vals[0]);
+        M mchain{vals[0], {}};
+        {
+          T *cur = &chain;
+          M *mcur = &mchain;
+          for (std::size_t i = 1; i < vals.size(); ++i)
+          {
+            cur = &cur->push_back(vals[i]).get();
+            mcur->ch.push_back(M{vals[i], {}});
+            mcur = &mcur->ch.back();
+          }
+        }
+        bool e1 = flat == std::as_const(ta), w1 = meq(mflat, ma);
+        bool e2 = chain == std::as_const(ta), w2 = meq(mchain, ma);
+        bool e3 = flat == chain, w3 = meq(mflat, mchain);
+        if (!w1 || !w2 || !w3)
+          vf::count("tree/comparison/same-values-different-shape");
+        if (e1 != w1 || e2 != w2 || e3 != w3 || (flat != std::as_const(ta)) == w1 || (chain != std::as_const(ta)) == w2)
+          fail("comparison-same-values-different-shape",
+               "node " + ser(ma) + " vs flat " + ser(mflat) + " / chain " + ser(mchain) + ": == gives " + (e1 ? "T" : "F") + (e2 ? "T" : "F") + (e3 ? "T" : "F") +
+                   " want " + (w1 ? "T" : "F") + (w2 ? "T" : "F") + (w3 ? "T" : "F"));
+        opname = "compare-reshaped";
+      }
+      break;
       case 23:
       {
         // independence of copies: copy a node, mutate the copy, the source must not change (checked by verify)
@@ -733,7 +771,7 @@ void body()
         "tree/op/swap-inner-root", "tree/op/copy-assign-inner-related", "tree/op/copy-assign-inner-unrelated",
         "tree/op/copy-assign-root-unrelated", "tree/op/copy-assign-root-related", "tree/op/copy-assign-inner-unrelated-grows",
         "tree/op/move-assign-inner-inner", "tree/op/move-assign-root-inner", "tree/op/move-assign-inner-root",
-        "tree/op/move-assign-root-root", "tree/op/copy-then-mutate", "tree/links-verified"})
+        "tree/op/move-assign-root-root", "tree/op/copy-then-mutate", "tree/op/compare-reshaped", "tree/comparison/same-values-different-shape", "tree/links-verified"})
     vf::require_bucket(b);
   std::string e = "tree-history";
   if (!vf::entry_enabled(e))
